@@ -572,7 +572,48 @@ func reachesDangling(g *refgraph.Graph, a *refgraph.ATree) bool {
 	return false
 }
 
-func runC02(c *Ctx) { runC02C03(c, "C02") }
+// c02SameTextChains: chains of parameter / response / path-item references in which every hop is written with the
+// SAME relative text ("a/p.json#/parameters/p" inside /r/root.json, again inside /r/a/p.json, ...): read from the
+// document that contains it, each one designates a document one directory further down; the chain ends at the real
+// element, which is what the root's element denotes.
+func c02SameTextChains(c *Ctx) {
+	for hops := 2; hops <= 4; hops++ {
+		dir := "file:///r/"
+		docs := map[string]wire.V{}
+		root := dir + "root.json"
+		docs[root] = wire.MustParse(`{"swagger":"2.0","info":{"title":"t","version":"1"},"paths":{"/x":{"get":{"parameters":[{"$ref":"a/p.json#/parameters/p"}],"responses":{"200":{"$ref":"a/p.json#/responses/r"}}}},"/y":{"$ref":"a/p.json#/paths/~1y"}},"parameters":{"viaRoot":{"$ref":"a/p.json#/parameters/p"}},"responses":{"viaRoot":{"$ref":"a/p.json#/responses/r"}}}`)
+		for h := 1; h < hops; h++ {
+			dir += "a/"
+			docs[dir+"p.json"] = wire.MustParse(`{"parameters":{"p":{"$ref":"a/p.json#/parameters/p"}},"responses":{"r":{"$ref":"a/p.json#/responses/r"}},"paths":{"/y":{"$ref":"a/p.json#/paths/~1y"}}}`)
+		}
+		dir += "a/"
+		docs[dir+"p.json"] = wire.MustParse(`{"parameters":{"p":{"name":"limit","in":"body","description":"the real parameter","schema":{"$ref":"#/definitions/s"}}},"responses":{"r":{"description":"the real response","schema":{"$ref":"#/definitions/s"}}},"paths":{"/y":{"get":{"responses":{"200":{"description":"the real path item"}}}}},"definitions":{"s":{"type":"string","description":"schema beside the real elements"}}}`)
+		w := &refgraph.World{Root: root, Docs: docs}
+		for oi := 0; oi < 8; oi++ {
+			o := expOpts{Skip: oi&1 == 1, Continue: oi&2 == 2, Absolute: oi&4 == 4}
+			cs := map[string]interface{}{"world": worldJSON(w), "options": o.String(), "family": "same-text-chains"}
+			c.Count(fmt.Sprint("same-text-chain", hops, o.String()), true)
+			c.Hit("family:same-text-chains")
+			in := normRootDoc(w)
+			res := expandWorld(w, o)
+			if res.Hang || res.Panic != "" || res.Err != nil {
+				c.Fail(Failure{Kind: "oracle", Sig: "C08:spurious-error", What: fmt.Sprint("every $ref is resolvable but ExpandSpec fails: ", res.Err, res.Panic), Case: cs})
+				continue
+			}
+			if msg, ok := checkMeaning(w, in, res.Out, 6); !ok {
+				c.Fail(Failure{Kind: "oracle", Sig: "C02:meaning-changed", What: msg, Case: cs, Impl: clip(res.Out.Text())})
+			}
+			if t := res.Out.Text(); !strings.Contains(t, "the real parameter") || !strings.Contains(t, "the real response") || !strings.Contains(t, "the real path item") {
+				c.Fail(Failure{Kind: "oracle", Sig: "C02:meaning-changed", What: "a chain of element references written with the same relative text at every hop is not followed to its end: " + clip(t), Case: cs, Impl: clip(t)})
+			}
+		}
+	}
+}
+
+func runC02(c *Ctx) {
+	c02SameTextChains(c)
+	runC02C03(c, "C02")
+}
 func runC03(c *Ctx) {
 	runC02C03(c, "C03")
 	c03SharedCache(c)
